@@ -46,6 +46,8 @@ def main():
     if not os.path.isdir(src):
         src = "/tmp/seed6/%s-out/%s" % (pid, mn)
     if not os.path.isdir(src):
+        src = "/tmp/seed7/%s-out/%s" % (pid, mn)
+    if not os.path.isdir(src):
         src = os.path.join(ROOT, "seeded", "%s-%s" % (pid, mn))
     patch = os.path.join(src, "patch.diff")
     meta = {"property": pid, "change": mn, "source": "independent sub-agent given only the property text and a scratch worktree"}
